@@ -1,7 +1,8 @@
 import Bt.Engine.Ops
 /-
   Run level: the loop of `Backtest.run` (backtest.py l.218-261), the stepping of a sub-strategy's shadow
-  ("paper") copy inside `StrategyBase.update` (core.py l.845-853), the `has_run` guard, a store of several
+  ("paper") copy inside `StrategyBase.update` (core.py l.845-855; like `Backtest.run` it does not run the algos
+  on the first row of the data), the `has_run` guard, a store of several
   backtests built from one template, and truncation of the supplied data columns (for "no look-ahead").
 
   The algos of a strategy are a parameter: `run d w` is what `Strategy.run()` does to the tree when the
@@ -63,10 +64,22 @@ def BtObj.run (cfg : Cfg α) (run : RunFn α) (b : BtObj α) : BtObj α :=
 
 /-! ### the shadow copy of a sub-strategy -/
 
-/-- the tail of `StrategyBase.update` (l.845-851) on the shadow copy `pw` of a sub-strategy: stepped only when the
-    child's own date changed (`newpt`), with literally the loop body of `Backtest.run` -/
+/-- one step of a shadow copy at row `d` (`inow == d`): on the first row of the data (`inow == 0`, the dummy row a
+    `Backtest` prepends) the copy is only updated - like `Backtest.run`, which calls `strategy.update(dates[0])` there and
+    never runs the algos on that row -, on every later row it gets the loop body of `Backtest.run`
+    (`paper.update(date); if inow != 0 and not paper.bankrupt: paper.run(); paper.update(date)`) -/
+def paperDay (cfg : Cfg α) (run : RunFn α) (d : Nat) (pw : World α) : Except Err (World α) :=
+  if d = 0 then updRoot cfg d pw else btDay cfg run d pw
+
+/-- the shadow copy over a list of rows, one step per row -/
+def paperLoop (cfg : Cfg α) (run : RunFn α) : List Nat → World α → Except Err (World α)
+  | [], w => pure w
+  | d :: ds, w => (paperDay cfg run d w).bind fun w' => paperLoop cfg run ds w'
+
+/-- the tail of `StrategyBase.update` (l.845-853) on the shadow copy `pw` of a sub-strategy: stepped only when the
+    child's own date changed (`newpt`) -/
 def paperStep (cfg : Cfg α) (run : RunFn α) (d : Nat) (newpt : Bool) (pw : World α) : Except Err (World α) :=
-  if newpt then btDay cfg run d pw else pure pw
+  if newpt then paperDay cfg run d pw else pure pw
 
 /-- the shadow copy under any sequence of `update(date)` calls the child receives from its parent
     (`now` = the child's own clock, `none` before the first call) -/
@@ -76,7 +89,7 @@ def paperUpdates (cfg : Cfg α) (run : RunFn α) : List Nat → Option Nat → W
     (paperStep cfg run d (now != some d) pw).bind fun pw' => paperUpdates cfg run ds (some d) pw'
 
 /-- price of the root of a world (`paper.price` as read by the child after stepping; no refresh is pending
-    because `btDay` ends with an update or with a bankrupt tree that was just updated) -/
+    because `paperDay` ends with an update or with a bankrupt tree that was just updated) -/
 def World.price (w : World α) : α :=
   match w.root with
   | .strat sd _ => sd.price
